@@ -61,7 +61,7 @@ def obsHandle (w : World) (h : Entity) : String :=
   c ++ "/" ++ e
 
 def obs (w : World) (hs : List Entity) : String :=
-  s!"len={w.len} iter={obsIter w} arch={obsArch w} ag={w.archs.size} hs=" ++ showList (obsHandle w) hs
+  s!"len={w.len} iter={obsIter w} arch={obsArch w} ag={w.archs.size} hs=" ++ showList (obsHandle w) hs ++ " acc=ok"
 
 /-- all values still stored (what dropping the world drops) -/
 def allVals (w : World) : List Comp :=
@@ -147,7 +147,7 @@ def specObs (s : SpecW) (hs : List Entity) : String :=
       (match s.lookup e with
        | some cs => showComps (sortComps cs)
        | none => if s.reserved.contains e then "[]" else "x")
-  s!"len={s.live.length} iter={iter} arch={arch} hs=" ++ showList h hs
+  s!"len={s.live.length} iter={iter} arch={arch} hs=" ++ showList h hs ++ " acc=ok"
 
 /-- the set of archetype type sets an `obs` line reports (counts stripped) -/
 def archSets (rhs : String) : String :=
